@@ -1,10 +1,9 @@
 CONSTANTS Urls <- UrlsC
           Texts <- TextsC
-          MaxMsgs = 4
+          MaxMsgs = 3
           MaxInFlight = 3
           VersionGuard = FALSE
           RefreshFromMemory = TRUE
-INIT LInit
-NEXT LNext
-INVARIANTS LastWordUnlessOverlapped
+SPECIFICATION LSpec
+PROPERTY ComesToRest
 CHECK_DEADLOCK FALSE
